@@ -139,6 +139,10 @@ func genVersion(r *Rand) (string, bool) {
 			"v1.2.3-a.b.c+d.e", "v0", "v0.0", "v0.0.0", "v1.2.3 ", "v1.2.3-é", "v1.2.3-\xff"}), true
 	case 2:
 		return r.Bytes(r.Intn(12), semverMutAlphabet), false
+	case 3:
+		// the literal suffix module.CanonicalVersion looks for, on valid, shortened and invalid strings
+		base := r.Pick([]string{"", "v", "v1", "v1.2", "v1.2.3", "v01.2.3", "v1.2.3-pre", "v1.2.3+meta", "v1.2.3-", "1.2.3", "vx", genValidVersion(r), mutate(r, genValidVersion(r), semverMutAlphabet)})
+		return base + r.Pick([]string{"+incompatible", "+incompatible", "+Incompatible", "+incompatible.1", "+incompatibl", "-incompatible", "+meta+incompatible", ".incompatible"}), true
 	}
 	return genValidVersion(r), true
 }
@@ -235,6 +239,13 @@ func oracleC04(g *Gen, n int) {
 			}
 			if !semver.IsValid(v) && (semver.Canonical(v) != "" || semver.Major(v) != "" || semver.MajorMinor(v) != "" || semver.Prerelease(v) != "" || semver.Build(v) != "") {
 				g.Fail("accessor non-empty for invalid version", v, "semver.canonical "+hx(v))
+			}
+			want := semver.Canonical(v)
+			if semver.Build(v) == "+incompatible" {
+				want += "+incompatible"
+			}
+			if cv := module.CanonicalVersion(v); cv != want || !semver.IsValid(v) && cv != "" {
+				g.Fail("CanonicalVersion is not Canonical plus exactly the +incompatible build suffix (empty for invalid strings)", v, "semver.canonicalversion "+hx(v))
 			}
 			if semver.IsValid(v) {
 				cn := semver.Canonical(v)
